@@ -861,6 +861,14 @@ func TestConcurrentUse(t *testing.T) {
 	if evid.Tier() != "thorough" {
 		// (not in the thorough tier: its budget reaches every set often enough, and the slow SLH-DSA 's' sets dominate its cost)
 		bs = append(bs, paramSetsBuilder())
+		// the jwt builder twice in the quick tier: with 19 builders in the list its share had fallen to
+		// 5 % of 1200 cases and seeded change C18d (a header cache shared between token kinds, no data
+		// race reported, visible only as a wrong result) was caught in 1 of 3 runs instead of 4 of 4
+		for _, b := range builders() {
+			if b.class == "jwt" {
+				bs = append(bs, b, b)
+			}
+		}
 	}
 	// "pair": two independently drawn primitives (any two classes, or two keys of one class) are
 	// used at once, so that state shared between *different* keys or primitives - package-level
